@@ -92,6 +92,34 @@ Definition validateSpec (scid dcid ipn : Z) (lens : list Z) (single udpMin : Z) 
   && ((udpMin =? 0) || ((upMinInitialPacketSize <=? udpMin) && (udpMin <=? bufCap)))
   && forallb (validPlan maxPacket) plans.
 
+(** maxInitialHeaderLen: the longest header the spec can produce (library-chosen DCID: 20
+    bytes; longest configured packet-number length, 4 for the default algorithm; [tokLen] = the
+    synthesised token's length, 0 with an explicit TokenStore whose token is not known yet) *)
+Definition maxPnLen (lens : list Z) (single : Z) : Z :=
+  match lens with
+  | [] => if single =? 0 then 4 else single
+  | _ => fold_right Z.max 1 lens
+  end.
+
+Definition maxHdrLen (scid dcid : Z) (lens : list Z) (single tokLen : Z) : Z :=
+  1 + 4 + 1 + (if dcid =? 0 then upMaxConnIDLen else dcid) + 1 + scid + maxPnLen lens single + 2 + (vlen tokLen + tokLen).
+
+Definition planLimit (maxPacket : Z) (p : Z * Z) : Z :=
+  if (snd p >? 0) && (snd p <? maxPacket) then snd p else maxPacket.
+
+(** the flight is realisable: a CRYPTO byte fits every packet, a pinned split fits its packet *)
+Definition roomOk (maxHdr maxPacket : Z) (plans : list (Z * Z)) : bool :=
+  (maxHdr + 16 + 4 <=? maxPacket)
+  && forallb (fun p => maxHdr + 16 + 4 <=? planLimit maxPacket p) plans
+  && forallb (fun p => (fst p <=? 0) || (maxHdr + 1 + 4 + vlen (fst p) + fst p <? planLimit maxPacket p - 16)) plans.
+
+(** InitialPacketSpec.validate, complete (the checks of [validateSpec] come first in the code
+    except that negative CryptoLength / PacketSize range are tested after the room checks:
+    the boolean is the same) *)
+Definition validateSpecT (scid dcid ipn : Z) (lens : list Z) (single udpMin : Z) (plans : list (Z * Z)) (maxPacket tokLen : Z) : bool :=
+  validateSpec scid dcid ipn lens single udpMin plans maxPacket
+  && roomOk (maxHdrLen scid dcid lens single tokLen) maxPacket plans.
+
 (** ** u_transport.go: connection ID lengths.  [drawn]: the length GenerateConnectionIDForInitial
     drew (8..20) when the spec does not pin it. *)
 Definition dialScidLen (specScid : Z) : Z := if specScid =? 0 then 0 else specScid.
@@ -274,7 +302,8 @@ Definition hdrOf (c : cfg) (i : Z) : Z := hdrLen (c_dcid c) (c_scid c) (c_tokLen
     during the first flight; kept separate as in the code). *)
 Fixpoint flightLoop (fuel : nat) (c : cfg) (plens : list Z) (i idx off rem : Z) : list dgres :=
   match fuel with
-  | O => []
+  | O => if rem <=? 0 then [] else [DGErr 98]   (* out of fuel (model artefact, excluded by
+                                                  flight_fuel_sufficient): the code has no bound *)
   | S f =>
     let pnLen := pnLenOf c i in
     let hdr := hdrOf c i in
@@ -362,10 +391,13 @@ Definition flightPlanned (c : cfg) (helloLen : Z) (plens : list Z) : list dgres 
         if sizeRuleOk bs (Z.of_nat (length bs)) 0 plens then plannedLoop c plens 0 else [DGErr 2]
     end.
 
-Definition maxDatagrams : nat := 10.
+(** There is no bound on the number of Initial datagrams in the code (the connection calls
+    PackCoalescedPacket until it returns nil).  Every datagram carries at least one CRYPTO byte,
+    so helloLen + 1 steps always suffice: the fuel never runs out (flight_fuel_sufficient). *)
+Definition flightFuel (helloLen : Z) : nat := S (Z.to_nat helloLen).
 
 Definition flight (c : cfg) (helloLen : Z) (plens : list Z) : list dgres :=
   match c_bk c with
-  | BFlight => firstn maxDatagrams (flightPlanned c helloLen plens)
-  | _ => flightLoop maxDatagrams c plens 0 0 0 helloLen
+  | BFlight => flightPlanned c helloLen plens
+  | _ => flightLoop (flightFuel helloLen) c plens 0 0 0 helloLen
   end.
